@@ -439,6 +439,12 @@ func TestVerifC05Fillers(t *testing.T) {
 		jobs = append(jobs, job{udp.NewPacketFiller(udp.WithPayload(pl)), &c05want{Kind: "udp", TTL: 64, IPFlags: 2, Proto: 17, Payload: pl, PayLen: 2, Via: "volume"}, run.Pick(12000, 100000)})
 	}
 
+	// volume: the edges of the spoofed ranges are hit once in tens of thousands of frames (source port 32768..60999:
+	// one value in 28232; IP id 0: one in 65536)
+	for k := 0; k < 16; k++ {
+		jobs = append(jobs, job{tcp.NewPacketFiller(tcp.WithSYN(), tcp.WithFillerVPNmode(k%2 == 1)), &c05want{Kind: "tcp", VPN: k%2 == 1, Flags: 2, TTL: 64, IPFlags: 2, Proto: 6, Via: "volume"}, run.Pick(25000, 150000)})
+	}
+
 	for i, j := range jobs {
 		if !run.Mine(i) {
 			continue
